@@ -375,3 +375,54 @@ class Report:
             self.pid, self.tier, self.states, self.transitions, self.execs, self.calls, self.compared, self.refused, self.open,
             len(known), nviol, wall))
         return 1 if nviol else 0
+
+
+# ---------------------------------------------------------------------------------------------
+# direction B: record traces from the real library, validate them with TLC against spec/Trace.tla
+# ---------------------------------------------------------------------------------------------
+def record_and_validate(scr, name, seed, traces, steps, dtype="float64", tags=("verif",), timeout=1500):
+    """returns (events, tlc_states, mismatch or None, trace_path)"""
+    rec = build_harness(scr, tags=tags, cmd="record")
+    wd = scr.path("trace-" + name)
+    os.makedirs(wd, exist_ok=True)
+    tr = os.path.join(wd, "tr.ndjson")
+    p = subprocess.run([rec, "-seed", str(seed), "-traces", str(traces), "-steps", str(steps), "-dtype", dtype, "-out", tr],
+                       capture_output=True, text=True, env=GOENV, timeout=timeout)
+    if p.returncode != 0:
+        raise Infra("recorder failed: %s %s" % (p.stdout[-1000:], p.stderr[-3000:]))
+    events = sum(1 for _ in open(tr))
+    for fn in os.listdir(SPEC):
+        if fn.endswith(".tla"):
+            shutil.copy(os.path.join(SPEC, fn), wd)
+    with open(os.path.join(wd, "Trace.cfg"), "w") as f:
+        f.write('SPECIFICATION TSpec\nCONSTANTS TraceFile = "tr.ndjson"\nINVARIANTS TraceOK Consumed\nCHECK_DEADLOCK FALSE\n')
+    env = dict(os.environ)
+    env.pop("JAVA_TOOL_OPTIONS", None)
+    cmd = ["java", "-Xmx6g", "-Xss128m", "-XX:+UseParallelGC", "-XX:ParallelGCThreads=4", "-cp", TLA_CP, "tlc2.TLC", "-workers", "1",
+           "-metadir", os.path.join(wd, "md"), "-config", "Trace.cfg", "Trace.tla"]
+    try:
+        q = subprocess.run(cmd, cwd=wd, capture_output=True, text=True, env=env, timeout=timeout)
+    except subprocess.TimeoutExpired:
+        raise Infra("TLC trace validation timed out")
+    out = q.stdout
+    m = re.search(r"(\d+) states generated, (\d+) distinct states found", out)
+    states = int(m.group(2)) if m else 0
+    mm = re.search(r'<<\s*"MISMATCH",\s*(\d+),(.*?)>>\s*\n(?:Error|<<|\d+ states|State)', out, re.S)
+    if mm:
+        line = int(mm.group(1))
+        detail = " ".join(mm.group(2).split())[:1500]
+        return events, states, {"line": line, "detail": detail}, tr
+    if '"CONSUMED"' not in out:
+        raise Infra("TLC neither accepted nor rejected the trace:\n" + out[-3000:])
+    return events, states, None, tr
+
+
+def trace_context(tr, line):
+    """the operations of the trace that contains `line` (1-based), up to that line"""
+    evs = [json.loads(l) for l in open(tr)]
+    start = max(i for i in range(line) if evs[i]["ev"] == "reset")
+    ops = []
+    for i in range(start + 1, line):
+        e = evs[i]
+        ops.append("%s(h%d,%s)" % (e["op"]["k"], e["op"]["h"], json.dumps(e["op"]["a"], separators=(",", ":"))))
+    return ops, evs[line - 1], evs[start:line]
